@@ -63,6 +63,14 @@ particular moment; C06-D: the admitted address refusing); (iii) sizes or timings
 segment of exactly the read-buffer size; C16-D: traffic after an establishment deadline; C09-B: a buffer of capacity 0);
 (iv) genuine overlap (C15-D, C18-D, C09-D, C08-C); or (v) the *real* environment instead of a scripted one (C07-D real
 TCP probes, C20-B a directory that survives the kill).  Each class is now part of the fixed case lists.
+
+Rounds 7 and 8 (56 changes, 24 missed at first) added two more classes: (vi) a *history that spans a handler's
+lifetime* – the handler looks a registration up, something happens to the registry (expiry, sweep, re-registration,
+refusal), and only then does the handler finish (C02-M, C10-M/N, C09-P; the stale-activation history of this class also
+exposed a genuine defect, eab6a08); and (vii) *methods or inputs the scripted stand-ins did not offer* – `CloseWrite` on
+the relay's connections (C17-N), `(0, nil)` reads (C05-O), client flags (C06-N), non-literal address strings (C18-O),
+fresh processes (C11-M), answers larger than a datagram (C12-N, C15-M).  A stand-in narrower than the real thing is a
+blind spot of exactly its missing width.
 """)
 out.append("### 9.1 My own mutation list\n")
 out.append("""Written by the author of the checks while building them (weaker evidence than the independent seeds; kept because they
